@@ -1,6 +1,7 @@
 pub mod c01;
 pub mod c02;
 pub mod c03;
+pub mod c05;
 pub mod common;
 pub mod c04;
 
@@ -11,6 +12,7 @@ pub fn run(cfg: &Cfg, rep: &mut Report) -> bool {
     "C01" => c01::run(cfg, rep),
     "C02" => c02::run(cfg, rep),
     "C03" => c03::run(cfg, rep),
+    "C05" => c05::run(cfg, rep),
     "C04" => c04::run(cfg, rep),
     _ => return false,
   }
